@@ -21,6 +21,11 @@ class Switch:
     def __init__(self):
         self.on = False
         self.n = 0
+        self.log = [[0]]
+
+    def note(self):
+        """Changes a nested container in place (the outer list object stays the same)."""
+        self.log[0].append(self.n + len(self.log[0]))
 
     @property
     def total(self):
